@@ -1135,6 +1135,18 @@ func (g *gen) newArg(kind string) Arg {
 			i := r.Intn(len(s))
 			s = s[:i] + string("(),Z M E1x"[r.Intn(10)]) + s[i+1:]
 		}
+		if r.Chance(0.06) {
+			// bytes that text from elsewhere carries: NUL padding, other
+			// control characters, a byte-order mark, a no-break
+			// space - replacing a character or put in between
+			junk := []string{"\x00", "\x00\x00", "\x01", "\x7f", "\ufeff", "\u00a0", "\x0c", "\x1a", "\r"}[r.Intn(9)] // (valid UTF-8 only: the scenario travels as JSON)
+			i := r.Intn(len(s) + 1)
+			if r.Chance(0.5) && i < len(s) {
+				s = s[:i] + junk + s[i+1:]
+			} else {
+				s = s[:i] + junk + s[i:]
+			}
+		}
 		return Arg{K: "s:wkt", S: s}
 	case kind == "j":
 		m := g.geomOfType(mgeom.AllTypes[r.Intn(len(mgeom.AllTypes))])
